@@ -36,7 +36,7 @@ ASSUMPTIONS = [
     "Excl: inherit inside an enumerated gen_ebuild_env run (pkgcore adds a QA notice line to the captured stderr there, which only changes how many stale lines a failing run leaves); the env-dump ordinary session covers inherit + gen_ebuild_env",
 ]
 BOUNDS = {
-    "quick": "<=2 Python requests per session: first from all 12 request kinds x daemon-side event scripts (<=2 events + terminal per phase/metadata run), second from the 9 control requests; channel capacity 4; every model session replayed on the real pair; 8 ordinary real sessions checked against the model",
+    "quick": "<=2 Python requests per session: first from all 12 request kinds x daemon-side event scripts (<=2 events + terminal per phase/metadata run; phase events: helper ok/error, unknown command, kill -TERM/-INT, nonfatal die -n), second from the 9 control requests; channel capacity 4; every model session replayed on the real pair; 8 ordinary real sessions checked against the model",
     "thorough": "<=2 Python requests per session, both from all 12 request kinds x daemon-side event scripts (<=2 events + terminal); channel capacity 4; every model session replayed on the real pair; 8 ordinary real sessions",
 }
 MAXTASKSPERCHILD = 1
